@@ -144,7 +144,7 @@ Fragments(m, n) == [i \in 1..n |-> [m EXCEPT !.frag = i, !.nfrag = n,
 
 AdvApplicable(kind, m) ==
   \/ RewriteApplies(kind, m)
-  \/ kind = "omit" /\ Plain(m.t)
+  \/ kind = "omit" /\ (Plain(m.t) \/ m.t = "CCS")
   \/ kind \in {"inj_app0", "inj_fin0"}
 
 ProxyStep ==
@@ -198,7 +198,7 @@ ProxyStep ==
                 /\ AdvApplicable(kind, m)
                 /\ ops' = Append(ops, OpRec(d, lab, o, kind, 0))
                 /\ \/ /\ kind = "omit"
-                      /\ shift' = [shift EXCEPT ![d] = @ - 1]
+                      /\ shift' = [shift EXCEPT ![d] = IF Plain(m.t) THEN @ - 1 ELSE @]
                       /\ outbox' = Tail(outbox) /\ UNCHANGED <<net, held>>
                    \/ /\ kind = "inj_app0"                          \* plaintext ApplicationData ahead of m
                       /\ net' = [net EXCEPT ![d] = @ \o <<Msg("APP", 0), fwd>>]
